@@ -526,6 +526,18 @@ def _log_poly(func, p):
     return out
 
 
+VALUE_FUNCS = {"and", "or", "not", "cmp_lt", "cmp_le", "cmp_eq", "cmp_ne", "isnan", "isinf", "nparray", "zeros", "ones",
+               "where", "pylist"}
+
+
+def _definitely_value(r):
+    """A value that cannot be None (numbers, boolean arrays, freshly built arrays)."""
+    if r.is_const():
+        return True
+    at = r.as_atom()
+    return at is not None and at.func in VALUE_FUNCS
+
+
 def apply(func, args, kwargs=None):
     """Apply a named function to Rat arguments, returning a Rat (with rewrites)."""
     args = list(args)
@@ -587,7 +599,7 @@ def apply(func, args, kwargs=None):
             return Rat.const(1 if same == (func == "cmp_eq") else 0)
         if func in ("cmp_eq", "cmp_ne"):
             ka, kb = a.key(), b.key()
-            if (ka == "$None" and b.is_const()) or (kb == "$None" and a.is_const()):
+            if (ka == "$None" and _definitely_value(b)) or (kb == "$None" and _definitely_value(a)):
                 return Rat.const(0 if func == "cmp_eq" else 1)
         if func in ("cmp_eq", "cmp_ne") and not (b.is_zero() and _canon_sign(a)[1] == 1):
             try:
